@@ -128,6 +128,7 @@ static void check_unpad(const unsigned char *src,int len,int config6,int M,const
   unsigned char *w2=vc_exact_copy(w,n); int n2=opus_packet_unpad(w2,n); if(n2!=n||memcmp(w2,w,n)) vc_viol("unpad:not-idempotent","%s: unpad(unpad(x)) != unpad(x) (%d vs %d)",what,n2,n); else vc_count("unpad_idempotent",1);
   free(w2); free(w); }
 
+static const char *hex16(const unsigned char *b,int n){ static char t[80]; t[0]=0; for(int i=0;i<n&&i<24;i++) sprintf(t+3*i,"%02x ",b[i]); return t; }
 static void mode_pad(void){
   vc_rng r; vc_case_rng(&r,8); vk_pool_init(); int err;
   int useReal=vc_chance(&r,1,8);
@@ -159,7 +160,7 @@ static void mode_pad(void){
   int ret=opus_packet_pad(g.p,len,nl); vc_count("pad_calls",1);
   if(vc_gcheck(&g)) vc_viol("write:outside-buffer","pad(%d->%d) damaged canary",len,nl);
   if(nl<len){ if(ret!=OPUS_BAD_ARG) vc_viol("pad:shrink-accepted","pad(%d->%d) returned %d",len,nl,ret); if(memcmp(g.p,p.buf,len)) vc_viol("pad:wrote-on-error","rejected pad modified the packet"); }
-  else if(ret!=OPUS_OK){ int unk=(padkind==VP_PAD_RANDOM&&p.padbytes>0); vc_viol(ret==OPUS_INTERNAL_ERROR?(unk?"pad:internal-error:padding-not-extensions":"pad:internal-error"):"pad:failed","pad(%d->%d) of a valid packet (M=%d code=%d padkind=%d padbytes=%d next=%d) returned %d",len,nl,M,p.buf[0]&3,padkind,p.padbytes,p.next,ret); }
+  else if(ret!=OPUS_OK){ int unk=(padkind==VP_PAD_RANDOM&&p.padbytes>0); vc_viol(ret==OPUS_INTERNAL_ERROR?(unk?"pad:internal-error:padding-not-extensions":"pad:internal-error"):"pad:failed","pad(%d->%d) of a valid packet (M=%d code=%d padkind=%d padbytes=%d next=%d) returned %d; padding bytes %s",len,nl,M,p.buf[0]&3,padkind,p.padbytes,p.next,ret,hex16(p.buf+len-p.padbytes,p.padbytes)); }
   else { rfc_pkt m2; int why=same_frames(g.p,nl,0,config6,M,sizes,fr,&m2); if(why) vc_viol("pad:frames-differ","padded packet (%d->%d, M=%d code %d->%d) does not hold the same frames (reason %d)",len,nl,M,p.buf[0]&3,g.p[0]&3,why);
     else { OpusDecoder *a=opus_decoder_create(48000,2,&err), *b=opus_decoder_create(48000,2,&err); decode_pair(a,b,p.buf,len,g.p,nl,2,"padded vs original (built packet)"); opus_decoder_destroy(a); opus_decoder_destroy(b);
       check_unpad(g.p,nl,config6,M,sizes,fr,"padded built packet"); vc_count("pad_ok",1); } }
